@@ -273,7 +273,11 @@ func HarnessC17RspSize(rl, lo, hi int) {
 		verifrt.Assert(verifBytesEq(out, reply), "reply_within_limit_passes")
 	}
 	// whatever happened to the first reply, the backend stream stays aligned: the next request gets its own reply
-	verifrt.Assert(bytes.Equal(w.Sent(c2), []byte("+K\r\n")) && c2.Opened() && c.Opened(), "next_request_on_the_connection_gets_its_own_reply")
+	if 4 > limit { // the second reply (4 bytes) is itself above the limit
+		verifrt.Assert(bytes.Equal(w.Sent(c2), []byte("-ERR rsp msg length too large\r\n")) && c2.Opened() && c.Opened(), "next_request_on_the_connection_gets_its_own_reply")
+	} else {
+		verifrt.Assert(bytes.Equal(w.Sent(c2), []byte("+K\r\n")) && c2.Opened() && c.Opened(), "next_request_on_the_connection_gets_its_own_reply")
+	}
 	verifrt.Cover("end", true)
 }
 
